@@ -1,4 +1,5 @@
 import FastQr.Proofs.Deinterleave
+import FastQr.Model.Matrix
 /-
 The EC part of `polynomials::structure`: sequence index dc + j*nb + b holds EC codeword j of block b
 (block = the crate's slice of the data buffer), indices from `max_bytes` on stay zero; for every
@@ -6,6 +7,14 @@ The EC part of `polynomials::structure`: sequence index dc + j*nb + b holds EC c
 -/
 namespace FastQr.Proofs.EcPart
 open FastQr Model Spec Finite Proofs Proofs.StructureSound
+
+theorem getD_set' (a : Array Nat) (k x j : Nat) (hk : k < a.size) :
+    (a.setIfInBounds k x).getD j 0 = if j = k then x else a.getD j 0 := by
+  simp only [Array.getD_eq_getD_getElem?, Array.getElem?_setIfInBounds]
+  by_cases h : k = j
+  · subst h; simp [hk]
+  · have : ¬ j = k := fun e => h e.symm
+    simp [h, this]
 
 /-- a fold of stores all of which write `F idx` at `idx`: written cells hold `F`, the rest is unchanged -/
 theorem setsFold_get (F : Nat → Nat) : ∀ (ws : List (Nat × Nat)) (out : Array Nat),
@@ -18,7 +27,7 @@ theorem setsFold_get (F : Nat → Nat) : ∀ (ws : List (Nat × Nat)) (out : Arr
       (fun x hx => by simpa using hlt x (by simp [hx])) i
     have hw := hlt w (by simp)
     have hset : (out.setIfInBounds w.1 w.2).getD i 0 = if i = w.1 then w.2 else out.getD i 0 :=
-      CompactSound.getD_set out w.1 w.2 i hw
+      getD_set' out w.1 w.2 i hw
     rw [List.foldl_cons]
     constructor
     · intro hin
